@@ -1,6 +1,6 @@
 """C14 — File encoding is transparent (DESIGN.md §3 C14): bytes are seen by one function, decoded by the BOM-sniffing API
 with the documented cascade, and every string slice downstream is triaged."""
-from vlib.mir import norm, loc_str, op_place, switch_info
+from vlib.mir import norm, loc_str, op_place, switch_info, loc_macro
 from vlib.facts import PRODUCT
 from rules import panics
 from rules.c04 import entry_bodies
@@ -144,6 +144,71 @@ def rule_slice(ctx, rep):
             r.finding("lsp_project::map_label|slice-bounds", "%s:%d" % (b.f["file"], b.f["line"]), "slice bounds are not the label's own location fields")
 
 
+def _str_root(b, op, depth=6):
+    """the string a &str operand stands for: follows borrows, moves and Deref::deref / as_str / String::deref calls"""
+    p = op_place(op)
+    for _ in range(depth):
+        if p is None:
+            return None
+        rt = b.root(p)
+        if rt[0] <= b.f["argc"]:
+            return (rt[0], tuple(x[2] for x in rt[1] if isinstance(x, list) and x[0] == "f"))
+        d = b.single_def(rt[0])
+        if d and d[0] == "call" and (d[2].callee or d[2].u or "").split("::")[-1] in ("deref", "as_str", "borrow", "as_ref", "deref_mut", "as_mut_str") and d[2].args:
+            p = op_place(d[2].args[0])
+            continue
+        return (rt[0], tuple(x[2] for x in rt[1] if isinstance(x, list) and x[0] == "f"))
+    return None
+
+
+def rule_samestr(ctx, rep):
+    """An offset found in one string is only meaningful in that string.  (The frozen justifications of the slice inventory say "offset
+    returned by find()"; this rule checks the part they silently assume: find() ran on the very string that is cut.)"""
+    from vlib.numflow import slice_of
+    r = rep.rule("R-C14-samestr", "byte offsets are used on the string they were found in: for every string range-index whose bounds come from "
+                                  "find/rfind/len/char_indices, the searched/measured string is the sliced string itself (not a transformed copy)",
+                 floor=3, floor_what="slice sites with searched offsets")
+    n = 0
+    for b in sorted(ctx.prog.bodies.values(), key=lambda x: x.id):
+        if b.f["crate"] not in PRODUCT or "::test" in norm(b.id):
+            continue
+        k = 0
+        for c in sorted(b.calls(), key=lambda c: (c.loc[0], c.loc[1])):
+            cal = c.callee or ""
+            if not (cal == "core::str::traits::index" or cal.startswith("<alloc::string::String as core::ops::index::Index")) or len(c.args) < 2:
+                continue
+            if loc_macro(c.loc):
+                continue
+            sl = slice_of(ctx.prog, b, c.args[1])
+            searched = [(bb, cc) for bb, cc in sl.calls if (cc.callee or cc.u or "").split("::")[-1] in
+                        ("find", "rfind", "len", "char_indices", "match_indices", "rmatch_indices", "find_map", "position") and bb is b]
+            if not searched:
+                continue
+            k += 1
+            n += 1
+            tgt = _str_root(b, c.args[0])
+            inst = "%s|index#%d" % (norm(b.id), k)
+            bad = []
+            for bb, cc in searched:
+                src = _str_root(b, cc.args[0]) if cc.args else None
+                if src != tgt:
+                    bad.append("%s() at line %d ran on %s, the slice cuts %s" % ((cc.callee or cc.u).split("::")[-1], cc.loc[0],
+                                                                                 _nm(b, src), _nm(b, tgt)))
+            if bad:
+                r.finding(inst + "|offset-from-other-string", loc_str(b.f, c.loc), "; ".join(sorted(set(bad))) +
+                          ": offsets of a different (e.g. case-converted) text need not be char boundaries of this one")
+            else:
+                r.ok(inst, loc_str(b.f, c.loc), "offsets searched in %s" % _nm(b, tgt))
+    r.note("%d slice sites with searched offsets" % n)
+
+
+def _nm(b, root):
+    if root is None:
+        return "?"
+    n = b.local_name(root[0]) or "_%d" % root[0]
+    return n + "".join("." + f for f in root[1])
+
+
 def run(ctx, rep):
     rep.not_decided += ["equality of verdict/positions across encodings (follows from R-C14-single only under encoding_rs's contract, which is trusted)",
                         "column arithmetic after multi-byte characters (bytes vs chars vs UTF-16 units)", "behaviour on arbitrary binary input beyond the slice inventory"]
@@ -151,3 +216,4 @@ def run(ctx, rep):
     rule_single(ctx, rep)
     rule_api(ctx, rep)
     rule_slice(ctx, rep)
+    rule_samestr(ctx, rep)
